@@ -333,6 +333,41 @@ func main() {
 	if tier == "thorough" {
 		mult = 10
 	}
+	// size templates: a frame of every size class held mid-frame while others are started / the flush timer fires.
+	// They come first: they are deterministic (no draw from the PRNG) and a writer with a size-dependent path shows
+	// up here as a rejected byte stream, ahead of the many model-vs-code lines it also breaks (the check keeps the
+	// first 50 disagreements only).
+	bigs := []int{100, 4095, 4096, 4097, 8191, 8192, 16384, 65537, 1 << 20}
+	ti := 0
+	for ci := 0; ci < 4; ci++ {
+		conf := sconf{proto: []int{4, 2, 3, 4}[ci], coal: ci%2 == 1, wt: ci/2 == 1}
+		hl := memcluster.HeaderLen(conf.proto)
+		for _, big := range bigs {
+			orders := [][]int{{big, 90, 0}, {60, big, 0}, {big, big + 1, 70}}
+			for oi, totals := range orders {
+				holds := []int{0, 1, hl, 4095, 4096, totals[0] - 1}
+				for hi, hold := range holds {
+					ti++
+					if tier != "thorough" && big != 4096 && (hi+oi+ci)%3 != 0 { // quick: every hold position for 4096, a third of them for the others
+						continue
+					}
+					kind := "ok"
+					if ti%5 == 0 && hold > 0 {
+						kind = errKinds[(ti/5)%len(errKinds)]
+					}
+					sop, ans, top, cls := runSizeTemplate(conf, totals, hold, kind)
+					if strings.HasPrefix(sop, "fatal") {
+						fmt.Fprintln(os.Stderr, "c07:", sop)
+						os.Exit(3)
+					}
+					out.Case(top, "accept", "trace2", true)
+					if sop != "" {
+						out.Case(sop, ans, cls, true)
+					}
+				}
+			}
+		}
+	}
 	for i := 0; i < 4000*mult; i++ {
 		n := 1 + r.Intn(5)
 		lens := make([]string, n)
@@ -430,10 +465,10 @@ func main() {
 			fmt.Fprintln(os.Stderr, "c07:", sop)
 			os.Exit(3)
 		}
+		out.Case(top, "accept", "trace2", true)
 		if sop != "" {
 			out.Case(sop, ans, cls, true)
 		}
-		out.Case(top, "accept", "trace2", true)
 	}
 	// systematic templates: cut position x error kind x which frame of the three outstanding ones.
 	// quick: the offsets around the frame and header boundaries; thorough: every byte offset.
@@ -471,10 +506,10 @@ func main() {
 					if flen < 0 {
 						flen = templateFrameLen(top, cf)
 					}
+					out.Case(top, "accept", "trace2", true)
 					if sop != "" {
 						out.Case(sop, ans, cls, true)
 					}
-					out.Case(top, "accept", "trace2", true)
 				}
 			}
 		}
@@ -508,43 +543,11 @@ func main() {
 						if !ok {
 							continue
 						}
+						out.Case(top, "accept", "trace2", true)
 						if sop != "" {
 							out.Case(sop, ans, cls+"/large", true)
 						}
-						out.Case(top, "accept", "trace2", true)
 					}
-				}
-			}
-		}
-	}
-	// size templates: a frame of every size class held mid-frame while others are started / the flush timer fires
-	bigs := []int{100, 4095, 4096, 4097, 8191, 8192, 16384, 65537, 1 << 20}
-	ti := 0
-	for ci := 0; ci < 4; ci++ {
-		conf := sconf{proto: []int{4, 2, 3, 4}[ci], coal: ci%2 == 1, wt: ci/2 == 1}
-		hl := memcluster.HeaderLen(conf.proto)
-		for _, big := range bigs {
-			orders := [][]int{{big, 90, 0}, {60, big, 0}, {big, big + 1, 70}}
-			for oi, totals := range orders {
-				holds := []int{0, 1, hl, 4095, 4096, totals[0] - 1}
-				for hi, hold := range holds {
-					ti++
-					if tier != "thorough" && big != 4096 && (hi+oi+ci)%3 != 0 { // quick: every hold position for 4096, a third of them for the others
-						continue
-					}
-					kind := "ok"
-					if ti%5 == 0 && hold > 0 {
-						kind = errKinds[(ti/5)%len(errKinds)]
-					}
-					sop, ans, top, cls := runSizeTemplate(conf, totals, hold, kind)
-					if strings.HasPrefix(sop, "fatal") {
-						fmt.Fprintln(os.Stderr, "c07:", sop)
-						os.Exit(3)
-					}
-					if sop != "" {
-						out.Case(sop, ans, cls, true)
-					}
-					out.Case(top, "accept", "trace2", true)
 				}
 			}
 		}
